@@ -416,6 +416,32 @@ fn generate(full: bool) -> String {
                     e.self_conflict = true;
                     g.case("self-conflicting", &sx, &e, 2, "");
                 }
+                // wide tuples (9, 10, 16, 17 and 26 members): the member that fails comes last (or in the middle), the
+                // guards of the many members in front of it have to be released by the unwinding
+                for (n, at) in [(9usize, 8usize), (10, 9), (16, 15), (17, 8), (26, 25), (26, 13)] {
+                    let mut v: Vec<T> = Vec::new();
+                    for i in 0..n {
+                        v.push(if i == 0 {
+                            T::Leaf(k1, 0)
+                        } else if i == at {
+                            T::Leaf(k2, 0)
+                        } else if i == 1 {
+                            T::Leaf(K::Write, 1)
+                        } else if i == 2 {
+                            T::Leaf(K::Read, 2)
+                        } else if i == n - 1 {
+                            T::Leaf(K::OptWrite, 3)
+                        } else {
+                            T::Leaf(K::Unit, 0)
+                        });
+                    }
+                    let t = T::Tup(v);
+                    let mut sx = String::new();
+                    let mut e = Exp::default();
+                    ty(&t, &mut sx, &mut e);
+                    e.self_conflict = true;
+                    g.case("self-conflicting-wide", &sx, &e, 3, "");
+                }
                 // the same through the derive macro's generated fetch: the member that fails comes last, the
                 // guards of the members in front of it have to be released by the unwinding
                 for form in 0..2 {
